@@ -916,6 +916,12 @@ impl FseEncoder {
         for &symbol in data.iter().rev() {
             // Get symbol frequency for renormalization
             let sym_freq = table.enc_symbols[symbol as usize].freq as u32;
+            if sym_freq == 0 {
+                // A symbol without a slot in the table (non-adaptive encoder fed other data) cannot be
+                // coded.  The "escape" bytes written below are unknown to the decoder, which then returns
+                // other bytes without an error: refuse instead.
+                return Err(ZiporaError::invalid_data(format!("Symbol {} not in FSE table", symbol)));
+            }
             
             // Renormalize before encoding (advanced approach)
             let old_state = current_state;
